@@ -160,7 +160,12 @@ def case_ledger(col, p):
                 kw = kwargs_for(d, nus, gammas, hs, mig, theta0, frozen, nomut, funcs)
                 info = dict(p, input=name, time_dependent=funcs)
                 try:
-                    out = drv(as_layout(phi0), xx, T, **kw)
+                    xx_in = xx
+                    if layout == 'S':
+                        gbuf = np.full(2 * len(xx), 0.5)
+                        gbuf[::2] = xx
+                        xx_in = gbuf[::2]               # the grid as a strided view (a column of a table, every other point of a finer grid)
+                    out = drv(as_layout(phi0), xx_in, T, **kw)
                 except Exception as e:
                     col.violation('C04:driver%d:raises' % d, info, '%s: %s' % (type(e).__name__, e))
                     continue
